@@ -75,10 +75,11 @@ P("C10", "other", "abstract interpretation with partitioning on the returned enu
   "entry_size / max_size / max_size - current_size; the key and value in every error are the very arguments; on every Err exit "
   "current_size, max_size, the table's ghost sum, len, the table identity and the usage order (nothing was promoted) are unchanged; a "
   "successful try_insert adds exactly one entry; the additions on the way cannot exceed usize::MAX (a fit test that can overflow "
-  "misclassifies).", E3TB, "DESIGN.md 3/C10, 8.3")
+  "misclassifies); current_size equals the ghost sum at every exit and unwind point of every operation (shared with C02/C16: a stale "
+  "current_size makes the next classification and free_memory wrong).", E3TB, "DESIGN.md 3/C10, 8.3, 8.5 round 6")
 P("C11", "other", "abstract interpretation with ghost heap sizes of user values + dominance rules",
   "Clauses decided: mutate has exactly the exits Ok(None) (state unchanged, closure not reached), Ok(Some) (entry re-recorded with "
-  "heap(key)+heap(value')+size_of and <= max_size; promoted on both branches) and Err(EntryTooLarge) (iff new size > max_size; payload "
+  "heap(key)+heap(value')+size_of and <= max_size; promoted on both branches, including a growth that fits (C05's hit-promotes records of mutate)) and Err(EntryTooLarge) (iff new size > max_size; payload "
   "sizes differ by the measured change; exactly one entry left; current_size released by the old size); one closure call site, dominated "
   "by the lookup hit.", E3TB, "DESIGN.md 3/C11")
 P("C12", "other", "graph comparison of the four cursor state machines (mirror/sibling agreement) + exhaustion discipline + E3 post-states",
@@ -88,7 +89,7 @@ P("C12", "other", "graph comparison of the four cursor state machines (mirror/si
   "iterators exhaust then clear_no_drop. Not decided: all-interleavings correctness of the two-cursor machine.",
   E3TB, "DESIGN.md 3/C12")
 P("C13", "other", "abstract interpretation with a capacity ghost + effect analysis + guard/term rules",
-  "Clauses decided: capacity operations leave current_size, max_size, size sum and len unchanged (E3); reserve/try_reserve exit with "
+  "Clauses decided: capacity operations leave current_size, max_size, size sum and len unchanged and the usage order intact, also on a refused try_reserve (E3; order records shared with C05); reserve/try_reserve exit with "
   "capacity >= len + additional; a failing try_reserve keeps the original table and runs no effect; growth on insertion only behind the "
   "failure edge of the no-grow insert and with the requested capacity max(2*capacity, 1); shrink_to reallocates only when "
   "capacity > max(len, min) and requests exactly that; no growing hashbrown primitive (insert/reserve/try_reserve/shrink_to) is ever "
@@ -140,7 +141,10 @@ P("C06", "other", "linearity (typestate) dataflow over MIR for by-value entries 
   "three sinks consume the key slot and the value slot exactly once per path; the bitwise copy-out primitive is used only by owning "
   "iterators whose Drop exhausts then clear_no_drop's, or by the relocation, which empties the source table without dropping on every "
   "path; clear_no_drop only after such a copy-out; cache Drop / clear drain the table through a sink, seal freed once afterwards; "
-  "Entry::clone uses Clone::clone on the source's slots.",
+  "Entry::clone uses Clone::clone on the source's slots; no body overwrites the key/value slot of an entry behind a pointer or "
+  "reference unless the previous content was dropped in place or taken out first (C06.6); a table handed back to the cache by an "
+  "owning iterator's Drop is already marked empty, also when a private helper does the swap (judged with helpers inlined); the "
+  "iterator types that copy entries out obey the two-cursor step rules of C12 (a double yield is a double drop).",
   TB + " Not decided: unwind paths (leaks allowed), K/V Drop impls.", "DESIGN.md 3/C06")
 P("C04", "other", "term analysis of every table call site (hash/eq agreement) + abstract interpretation of insertion sites",
   "hashbrown does the probing; what lru-mem must get right is decided: every lookup/removal hashes k with the cache's own hash builder "
